@@ -196,7 +196,7 @@ __CPROVER_ensures(__CPROVER_return_value != 0 ==> (OFF(*p) > OFF(__CPROVER_old(*
 '''))
 
 jobs += [
-    dict(name='enc_validate_or_filter_utf8_bounded', props=P, enforce='enc_validate_or_filter_utf8', bounded=True, loop_contracts=False, unwind=8, object_bits=10,
+    dict(name='enc_validate_or_filter_utf8_bounded', props=P, enforce='enc_validate_or_filter_utf8', bounded=True, loop_contracts=False, pre_unwind=8, object_bits=10,
          bound_note='input length <= 6 bytes, all contents, both loops fully unwound (unwinding assertions on); same contract, utf8::next inlined with its real body',
          replace=['snk_reset', 'snk_append_seq', 'snk_append_tiled', 'snk_put_repl_u8'], timeout=600, cost=5,
          harness=r'''
